@@ -79,3 +79,82 @@ def reset_exo_globals():
             c.reg.clear()
     except Exception:
         pass
+
+
+def memoise_pysmt_factory():
+    """exo builds a new pysmt ``Factory`` for every procedure definition and
+    every unification; each Factory re-attempts the import of all solver back
+    ends that are not installed (msat, cvc4, yices, bdd, picosat, btor), which
+    costs ~35 ms per call and dominated the cost of a simulated session.  The
+    outcome is a pure function of the installed packages, so it is computed once
+    per process and copied afterwards.  No exo line is involved (crash-point
+    counts are unaffected) and the solver objects handed to exo are the same."""
+    import pysmt.factory as F
+
+    if getattr(F.Factory, "_verif_memo", None) is not None:
+        return
+    memo = {}
+    F.Factory._verif_memo = memo
+    o_s, o_q, o_i = F.Factory._get_available_solvers, F.Factory._get_available_qe, F.Factory._get_available_interpolators
+
+    def solvers(self):
+        if "s" not in memo:
+            o_s(self)
+            memo["s"] = (dict(self._all_solvers), dict(self._all_unsat_core_solvers))
+        self._all_solvers, self._all_unsat_core_solvers = dict(memo["s"][0]), dict(memo["s"][1])
+
+    def qe(self):
+        if "q" not in memo:
+            o_q(self)
+            memo["q"] = dict(self._all_qelims)
+        self._all_qelims = dict(memo["q"])
+
+    def itp(self):
+        if "i" not in memo:
+            o_i(self)
+            memo["i"] = dict(self._all_interpolators)
+        self._all_interpolators = dict(memo["i"])
+
+    F.Factory._get_available_solvers = solvers
+    F.Factory._get_available_qe = qe
+    F.Factory._get_available_interpolators = itp
+
+
+def fast_inspect_stack():
+    """exo calls ``inspect.stack()`` (default context=1: a source-file lookup for
+    every frame of the Python stack) each time a procedure is defined or a
+    pattern/fragment is parsed, and uses only ``.frame`` / ``.function`` of the
+    entries.  Inside the simulator the stack is deep (runner -> session -> op), so
+    this was ~20 % of a session.  The exo modules get a proxy of ``inspect`` whose
+    ``stack`` defaults to context=0; everything else is forwarded."""
+    import inspect as _inspect
+    import types
+
+    import exo.frontend.parse_fragment as PF
+    import exo.frontend.pattern_match as PM
+    import exo.frontend.pyparser as PP
+    import exo.rewrite.new_eff as NE
+
+    if isinstance(getattr(PP, "inspect", None), types.SimpleNamespace):
+        return
+
+    class _Proxy(types.SimpleNamespace):
+        def __getattr__(self, nm):
+            return getattr(_inspect, nm)
+
+    import sys as _sys
+
+    def fast_stack(context=0):
+        # same entries as inspect.stack(0) seen from the caller, without the
+        # per-frame source-file resolution of inspect.getframeinfo
+        f = _sys._getframe(1)
+        out = []
+        while f is not None:
+            out.append(_inspect.FrameInfo(f, f.f_code.co_filename, f.f_lineno, f.f_code.co_name, None, None))
+            f = f.f_back
+        return out
+
+    px = _Proxy(stack=fast_stack)
+    for m in (PF, PM, PP, NE):
+        if getattr(m, "inspect", None) is _inspect:
+            m.inspect = px
